@@ -260,7 +260,7 @@ KF_CLASSES = {"lines_blank_input": kf_lines_blank_input, "lines_invalid_utf8": k
 
 
 PROPS["C01"] = dict(
-    gen=lambda rng, n, tier: (lambda cs: cs + F.with_default_bounds(rng, cs))(F.field_lattice(rng) + F.fields(rng, n) + F.small_scope(rng, maxlen=(4 if tier == "quick" else 6), sample=(20 if tier == "quick" else None))),
+    gen=lambda rng, n, tier: (lambda cs: cs + F.with_default_bounds(rng, cs))(F.trim_overlap() + F.field_lattice(rng) + F.fields(rng, n) + F.small_scope(rng, maxlen=(4 if tier == "quick" else 6), sample=(20 if tier == "quick" else None))),
     budget=(15000, 100000),
     absolute=True,
     in_domain=always,
@@ -476,7 +476,7 @@ reg("C11", gen=lambda rng, n, tier: F.c11(rng, n) + F.c11_big(rng), budget=(9000
          "then short records); option texts contain neither LF nor NUL",
     theorems=[], assumptions=["option texts (delimiter, replacement, fillers, fallbacks) contain neither LF nor NUL"])
 
-reg("C12", gen=lambda rng, n, tier: F.c12(rng, n, exhaustive_len=(3 if tier == "quick" else 4)) + F.small_scope(rng, maxlen=(4 if tier == "quick" else 5), sample=(15 if tier == "quick" else 60)),
+reg("C12", gen=lambda rng, n, tier: F.trim_overlap() + F.c12(rng, n, exhaustive_len=(3 if tier == "quick" else 4)) + F.small_scope(rng, maxlen=(4 if tier == "quick" else 5), sample=(15 if tier == "quick" else 60)),
     budget=(9000, 60000), absolute=True, oracle=oracle_c12, release=True,
     nontrivial=lambda c, m: True,
     rule="bounded-exhaustive bounds strings over {1,2,-,:,=,{,},comma,a,e-acute} up to length 3 (4 thorough) as "
